@@ -68,7 +68,15 @@ def gen_cases(rng, tier):
                     rest -= x
                 data.append([o, rest])
             rng.shuffle(data)
-            form = rng.choice(["pairs", "pairs", "mapping", "bare", "neg", "H(h)"])
+            form = rng.choice(["pairs", "pairs", "mapping", "bare", "neg", "H(h)", "mixed", "mixed"])
+            want_mixed = form == "mixed"
+            if want_mixed:
+                form = "pairs"
+                # make sure some outcome occurs both as a bare outcome and inside a pair
+                for o, cc in list(data)[:2]:
+                    data.append([o, 1])
+                    data.append([o, 2])
+                rng.shuffle(data)
             if form == "mapping":
                 data = [list(x) for x in base]
                 rng.shuffle(data)
@@ -80,6 +88,11 @@ def gen_cases(rng, tier):
                 data[j] = [data[j][0], -rng.randint(1, 3)]
             c = {"kind": "construct", "form": form, "data": data,
                  "container": rng.choice(["list", "list", "tuple", "generator", "iterator", "reversed", "view", "counter", "set"])}
+            if form == "pairs" and (want_mixed or rng.random() < 0.15) and any(cc == 1 for _, cc in data):
+                # bare outcomes and (outcome, count) pairs in ONE iterable (accepted, though not a documented form):
+                # the counts of an outcome still add up across both spellings; the stored order is not checked here
+                c["form"] = "mixed"
+                c["bare_idx"] = [j for j, (_, cc) in enumerate(data) if cc == 1 and rng.random() < 0.7]
             if rng.random() < 0.15:
                 # bare outcomes given as a range object (ascending, descending, with a stride, empty)
                 start, step = rng.randint(-4, 6), rng.choice([1, -1, 2, -2, -3])
@@ -158,6 +171,11 @@ def impl_run(case):
                     h = H(dict.fromkeys(bare).keys()) if len(set(bare)) == len(bare) else H(bare)
                 else:
                     h = H(deliver(bare))
+            elif form == "mixed":
+                bi = set(case.get("bare_idx", []))
+                h = H(deliver([o if j in bi else (o, cnt) for j, (o, cnt) in enumerate(data)]))
+                items = sorted(hist_items(h), key=lambda oc: Fraction(*oc[0]))
+                return {"ok": items, "total": h.total, "len": len(h)}
             elif form == "H(h)":
                 h = H(H(deliver(data)))
             else:
